@@ -33,11 +33,22 @@ type LetStmt struct {
 type MonitorRule struct {
 	Kind    string   // "after" | "before"
 	Callees []string // patterns
-	Ret     string   // name bound to error-like result (after ... returning err)
-	Set     *CE      // after: new value of ghost flag (expression over flag name and Ret)
-	Assert  *CE      // before: assertion over ghost flag
+	Rets    []string // names bound to results (after ... returning r, err); a single name binds the LAST result
+	Sets    []GhostSet
+	Assert  *CE      // before: assertion over ghost variables
 	ArgBind []string // names for args
 	Src     string
+}
+
+type GhostSet struct {
+	Name string
+	Expr *CE
+}
+
+type GhostDecl struct {
+	Name string
+	Sort string
+	Init *CE
 }
 
 type Contract struct {
@@ -68,10 +79,9 @@ type Contract struct {
 }
 
 type Monitor struct {
-	Name  string
-	Ghost string
-	Init  *CE
-	Rules []MonitorRule
+	Name   string
+	Ghosts []GhostDecl
+	Rules  []MonitorRule
 }
 
 var clauseKeywords = map[string]bool{
@@ -380,12 +390,20 @@ func parseContractLines(lines []rawLine, path, pkgPath string) ([]*Contract, err
 				return nil, fail(fmt.Errorf("ghost outside monitor"))
 			}
 			eq := strings.Index(rest, "=")
-			curMon.Ghost = strings.TrimSpace(rest[:eq])
+			if eq < 0 {
+				return nil, fail(fmt.Errorf("ghost needs '= init'"))
+			}
+			decl := strings.Fields(rest[:eq])
+			gd := GhostDecl{Name: decl[0], Sort: "bool"}
+			if len(decl) > 1 {
+				gd.Sort = decl[1]
+			}
 			e, err := ParseCE(strings.TrimSpace(rest[eq+1:]))
 			if err != nil {
 				return nil, fail(err)
 			}
-			curMon.Init = e
+			gd.Init = e
+			curMon.Ghosts = append(curMon.Ghosts, gd)
 		case "after", "before":
 			// after call P1 | P2 [returning x] : flag = expr
 			// before call P1 | P2 : assert expr
@@ -400,7 +418,9 @@ func parseContractLines(lines []rawLine, path, pkgPath string) ([]*Contract, err
 			head = strings.TrimPrefix(head, "call ")
 			r := MonitorRule{Kind: kw, Src: rest}
 			if k := strings.Index(head, " returning "); k >= 0 {
-				r.Ret = strings.TrimSpace(head[k+len(" returning "):])
+				for _, a := range strings.Split(head[k+len(" returning "):], ",") {
+					r.Rets = append(r.Rets, strings.TrimSpace(a))
+				}
 				head = head[:k]
 			}
 			if k := strings.Index(head, " args "); k >= 0 {
@@ -413,12 +433,17 @@ func parseContractLines(lines []rawLine, path, pkgPath string) ([]*Contract, err
 				r.Callees = append(r.Callees, strings.TrimSpace(pat))
 			}
 			if kw == "after" {
-				eq := strings.Index(body, "=")
-				e, err := ParseCE(strings.TrimSpace(body[eq+1:]))
-				if err != nil {
-					return nil, fail(err)
+				for _, asg := range strings.Split(body, ";") {
+					eq := strings.Index(asg, "=")
+					if eq < 0 {
+						return nil, fail(fmt.Errorf("monitor assignment needs '='"))
+					}
+					e, err := ParseCE(strings.TrimSpace(asg[eq+1:]))
+					if err != nil {
+						return nil, fail(err)
+					}
+					r.Sets = append(r.Sets, GhostSet{Name: strings.TrimSpace(asg[:eq]), Expr: e})
 				}
-				r.Set = e
 			} else {
 				body = strings.TrimPrefix(body, "assert ")
 				e, err := ParseCE(body)
